@@ -1824,6 +1824,7 @@ fn parse_expr_unchecked(
                         let mips_oty = ir::ObjectType::Texture2DMips(ty);
                         let mips_tyl = ir::TypeLayer::Object(mips_oty);
                         let mips_ty = context.module.type_registry.register_type(mips_tyl);
+                        let mips_ty = context.module.type_registry.make_const(mips_ty);
                         return Ok(TypedExpression::Value(member, mips_ty.to_lvalue()));
                     }
 
@@ -1836,6 +1837,7 @@ fn parse_expr_unchecked(
                         let mips_oty = ir::ObjectType::Texture2DArrayMips(ty);
                         let mips_tyl = ir::TypeLayer::Object(mips_oty);
                         let mips_ty = context.module.type_registry.register_type(mips_tyl);
+                        let mips_ty = context.module.type_registry.make_const(mips_ty);
                         return Ok(TypedExpression::Value(member, mips_ty.to_lvalue()));
                     }
 
@@ -1847,6 +1849,7 @@ fn parse_expr_unchecked(
                         let mips_oty = ir::ObjectType::Texture3DMips(ty);
                         let mips_tyl = ir::TypeLayer::Object(mips_oty);
                         let mips_ty = context.module.type_registry.register_type(mips_tyl);
+                        let mips_ty = context.module.type_registry.make_const(mips_ty);
                         return Ok(TypedExpression::Value(member, mips_ty.to_lvalue()));
                     }
 
